@@ -53,6 +53,11 @@ type UEChoice struct {
 	// returning the payload container with 5GMM cause #22 and a back-off timer); should the request arrive again it
 	// is treated like any uplink message (a resent copy of the protected message reuses its NAS COUNT)
 	Refuse string `json:"refuse,omitempty"`
+	// CUCDelayMs: the AMF starts the generic UE configuration update (the Configuration Update Command that follows
+	// Registration Complete) this many milliseconds late; uplink messages that arrive in the meantime — from other
+	// UEs — are answered first. The emulator waits for that message, so for the unchanged program this only makes
+	// the conversation longer; nothing else in the conversation depends on time.
+	CUCDelayMs int `json:"cuc_delay_ms,omitempty"`
 }
 
 // Optional downlink information elements, placed where TS 38.413 allows them.
